@@ -13,6 +13,7 @@ Binding B : random larger sample sets (non-integer values, ties, zero weights) t
 PolyChord : the layout of PolyChord's .stats / clusters files could not be established offline; its summary part
             is not covered (its callbacks are covered by C06).
 """
+import json
 import math
 import os
 import random
@@ -24,6 +25,7 @@ import numpy as np
 
 from ..core import Machinery, frac, close, validate_trace
 from .. import fx_retrieval as fx
+from .. import fx_c09session as ses
 
 REL = 1e-9
 CENTRES = [1100.0, 1300.0, 1500.0, 1700.0, 1900.0]
@@ -384,8 +386,9 @@ def trace_event(eid, x, w, value, sigma_m, sigma_p, mean, cls, vector):
                 (x, w, value, sigma_m, sigma_p, mean))
 
 
-def random_case(rng, dims):
-    n = rng.randint(4, 24)
+def random_case(rng, dims, n=None):
+    if n is None:
+        n = rng.randint(4, 24)
     style = rng.random()
     wmax = 3 if style < 0.5 else 9
     w = [rng.randint(0, wmax) for _ in range(n)]
@@ -416,9 +419,10 @@ def random_total(rng, w):
     return [rng.randint(1, 200), 8]
 
 
-def run_random(ctx, ncases, rng):
+def run_random(ctx, ncases, rng, events=None):
+    """events: summaries already logged (session fits, harness/fx_c09session.py); validated by the same TLC run."""
     tmpdir = tempfile.mkdtemp(prefix='c09_')
-    events = []
+    events = [] if events is None else events
     try:
         worlds = {2: World('nestle', 2, tmpdir), 3: World('nestle', 3, tmpdir)}
         mworld = World('multinest', 2, tmpdir, multimodes=True)
@@ -484,6 +488,285 @@ def run_random(ctx, ncases, rng):
 
 
 # ----------------------------------------------------------------------------------------------
+# binding C: behaviours of spec/PosteriorSession.tla on ONE long-lived optimizer, in jobs of 1..P processes
+# ----------------------------------------------------------------------------------------------
+
+class SessionTwin(object):
+    """Oracle of the session replays: a second model instance and binners made from independently built, equal
+    observations.  Non-fitted parameters have the value the long-lived model had when fit() was called."""
+
+    def __init__(self):
+        self.model = fx.make_transmission('isothermal')
+        self.obs = {o: ses.make_obs(o) for o in ses.OBS}
+        self.binners = {o: self.obs[o].create_binner() for o in ses.OBS}
+
+    def set(self, names, vec, fixed):
+        vals = dict(fixed)
+        for n, v in zip(names, vec):
+            if n.startswith('log_'):
+                vals[n[4:]] = 10.0 ** float(v)
+            else:
+                vals[n] = float(v)
+        for k in ses.FIT_ALL:
+            self.model[k] = vals[k]
+
+    def spectrum(self, names, vec, fixed, o):
+        self.set(names, vec, fixed)
+        g, s, _, _ = self.model.model()
+        return s, self.binners[o].bindown(g, s)[1]
+
+    def profiles(self, names, vec, fixed):
+        self.set(names, vec, fixed)
+        self.model.model()
+        p = self.model.generate_profiles()
+        return {k: np.array(p[k], dtype=float) for k in PROFILE_KEYS}
+
+    def derived(self, names, vec, fixed):
+        self.set(names, vec, fixed)
+        self.model.initialize_profiles()
+        return {d: float(self.model.derivedParameters[d][2]()) for d in self.model.derivedParameters}
+
+
+def session_walks(ctx, rng):
+    """TLC-generated behaviours of MC_PosteriorSession, grouped by the number of processes of the job.  Every fit
+    step carries what the specification says the reported solution belongs to: <<"fit", n, binned_to, fitted, derived>>."""
+    from ..core import run_tlc
+    q = ctx.tier == 'quick'
+    res = run_tlc('MC_PosteriorSession', 'SIM_PosteriorSession_%s.cfg' % ctx.tier, workers=1,
+                  simulate='num=%d' % (80 if q else 800), depth=(6 if q else 8) + 3, seed=ctx.seed + 17)
+    ctx.add_tlc('simulate-sessions', res, counts=False)
+    if res.violated:
+        raise Machinery('PosteriorSession violates %s in simulation' % res.violated)
+    walks = res.tagged('WALK')
+    bynp = {}
+    for w in walks:
+        bynp.setdefault(w['init'][3], []).append(w)
+    if not bynp or len(bynp) < 2:
+        raise Machinery('TLC produced session walks for process counts %r only' % sorted(bynp))
+    per = 4 if q else 40
+    chosen = {}
+    for npr, ws in sorted(bynp.items()):
+        ws = sorted(ws, key=lambda w: json.dumps(w, sort_keys=True))
+        rng.shuffle(ws)
+        pick, seen = [], set()
+
+        def between_fits(w, op):        # a change of that setting between two fits of the walk
+            ops = [s[0] for s in w['walk']]
+            return any(o == op and 'fit' in ops[:i] for i, o in enumerate(ops))
+        for op in ('obs', 'sel', 'der'):
+            for w in ws:
+                key = json.dumps(w['walk'][:-1])
+                if key not in seen and between_fits(w, op):
+                    pick.append(w)
+                    seen.add(key)
+                    break
+        for w in ws:
+            if len(pick) >= per + (2 if npr == 1 else 0):
+                break
+            key = json.dumps(w['walk'][:-1])
+            if key not in seen and sum(1 for s in w['walk'] if s[0] == 'fit') >= 2:
+                pick.append(w)
+                seen.add(key)
+        chosen[npr] = pick
+    flat = [w for ws in chosen.values() for w in ws]
+    for op in ('obs', 'sel', 'der'):
+        if not any(any(o[0] == op and any(p[0] == 'fit' for p in w['walk'][:i]) for i, o in enumerate(w['walk'])) for w in flat):
+            raise Machinery('no generated session changes %r between two fits' % op)
+    return chosen
+
+
+def session_payloads(walk, rng, sampler):
+    """The sample sets the sampler double returns in the fits of one walk (sizes and selections from the spec)."""
+    fits = []
+    for step in walk['walk']:
+        if step[0] != 'fit':
+            continue
+        _, n, binned_to, fitted, derived = step
+        names = ses.SEL_NAMES[fitted]
+        cols, w = random_case(rng, len(names), n=n)
+        samples = np.array([[unit_map(nm, v) for v in col] for nm, col in zip(names, cols)]).T.copy()
+        tot = random_total(rng, w)
+        weights = np.array([float(Fraction(v * tot[0], sum(w) * tot[1])) for v in w], dtype=float)
+        f = dict(samples=samples.tolist(), weights=weights.tolist(), w=w, tot=tot,
+                 exp=dict(n=n, binned_to=binned_to, fitted=fitted, derived=derived))
+        if sampler == 'multinest':
+            f['modes'] = mn_modes(samples, weights, len(fits) + n)
+        fits.append(f)
+    return fits
+
+
+def judge_fit(ctx, twin, sampler, proj, fit, cls, vector, events):
+    """One reported solution of a session against what the specification says it belongs to."""
+    exp = fit['exp']
+    if 'error' in proj:
+        ctx.verdict('summary_produced', False, cls=cls, detail='fit raised ' + proj['error'], vector=vector)
+        return
+    names, dnames = ses.SEL_NAMES[exp['fitted']], ses.DERS[exp['derived']]
+    ok = proj['nsol'] == 1 and proj['names'] == names and all(n in proj['fit_params'] for n in names)
+    ctx.verdict('session_fitted_selection', ok, cls=cls,
+                detail='%d solution(s), summarised parameters %r / %r, selected %r' % (proj['nsol'], proj['names'], proj['fit_keys'], names),
+                vector=vector)
+    if not ok:
+        return
+    samples, weights = np.array(fit['samples'], dtype=float), np.array(fit['weights'], dtype=float)
+    exact = sampler == 'nestle'
+    same = (lambda a, b: np.array_equal(np.asarray(a, dtype=float), b)) if exact else (lambda a, b: arr_close(a, b, 1e-14))
+    sol = proj['sol']
+    ctx.verdict('tracedata_unchanged', same(proj['samples'], samples), cls=cls, detail='stored samples differ from the sampler\'s', vector=vector)
+    ctx.verdict('weights_unchanged', same(proj['weights'], weights), cls=cls,
+                detail='stored weights %r expected %r' % (proj['weights'], weights), vector=vector)
+    ctx.verdict('solution_dict_traces', arr_close(sol['tracedata'], samples, 1e-14) and arr_close(sol['weights'], weights, 1e-14),
+                cls=cls, detail='solution tracedata/weights differ', vector=vector)
+    ev_vec = dict(vector, w=fit['w'], tot=fit['tot'])
+    for d, n in enumerate(names):
+        p = proj['fit_params'][n]
+        ctx.verdict('trace_column', arr_close(p['trace'], samples[:, d], 1e-14), cls=cls,
+                    detail='%s trace %r expected column %r' % (n, p['trace'], samples[:, d]), vector=vector)
+        events.append(trace_event(len(events), samples[:, d], fit['w'], p['value'], p['sigma_m'], p['sigma_p'], p['mean'],
+                                  cls + ':fitted', ev_vec))
+    mapv = [proj['fit_params'][n]['map'] for n in names]
+    wmax = max(fit['w'])
+    hit = [i for i in range(len(samples)) if fit['w'][i] == wmax and
+           all(close(mapv[d], samples[i, d], rel=1e-14, abs_=1e-300) for d in range(len(names)))]
+    ctx.verdict('map_is_max_weight_sample', bool(hit), cls=cls, detail='MAP %r weights %r' % (mapv, fit['w']), vector=vector)
+    med = [proj['fit_params'][n]['value'] for n in names]
+    ctx.verdict('map_vector', len(proj['opt_map']) == len(mapv) and all(close(a, b, rel=1e-14, abs_=1e-300) for a, b in zip(proj['opt_map'], mapv)),
+                cls=cls, detail='get_solution MAP %r vs fit_params %r' % (proj['opt_map'], mapv), vector=vector)
+    ctx.verdict('median_vector', len(proj['opt_median']) == len(med) and all(close(a, b, rel=1e-14, abs_=1e-300) for a, b in zip(proj['opt_median'], med)),
+                cls=cls, detail='get_solution median %r vs fit_params %r' % (proj['opt_median'], med), vector=vector)
+    fixed = proj['fixed']
+    o = exp['binned_to']
+    nat, binned = twin.spectrum(names, mapv, fixed, o)
+    sp = sol['spectra']
+    ok = arr_close(sp.get('native_spectrum', []), nat) and arr_close(sp.get('binned_spectrum', []), binned)
+    if 'binned_wngrid' in sp:
+        ok = ok and arr_close(sp['binned_wngrid'], twin.obs[o].wavenumberGrid, 1e-12)
+    ctx.verdict('spectrum_at_map', ok, cls=cls,
+                detail='stored spectrum is not model(MAP=%r) binned to observation %d (the one in force at fit()); stored %r on %r expected %r on %r' %
+                (mapv, o, sp.get('binned_spectrum', [])[:3], sp.get('binned_wngrid', [])[:3], binned[:3], twin.obs[o].wavenumberGrid[:3]),
+                vector=vector)
+    prof = twin.profiles(names, med, fixed)
+    bad = [k for k in PROFILE_KEYS if not arr_close(sol['profiles'].get(k, []), prof[k])]
+    ctx.verdict('profiles_at_median', not bad, cls=cls, detail='profiles %r are not those of the median solution %r' % (bad, med), vector=vector)
+    want = sorted(d + '_derived' for d in dnames)
+    ctx.verdict('session_derived_selection', sorted(sol['derived']) == want and proj['derived_names'] == dnames, cls=cls,
+                detail='derived traces %r (derived_names %r), selected %r' % (sorted(sol['derived']), proj['derived_names'], dnames), vector=vector)
+    expd = [twin.derived(names, samples[i], fixed) for i in range(len(samples))]
+    for d in dnames:
+        rec = sol['derived'].get(d + '_derived')
+        if rec is None:
+            ctx.verdict('derived_trace', False, cls=cls, detail='no derived trace for %s' % d, vector=vector)
+            continue
+        e = np.array([x[d] for x in expd])
+        ctx.verdict('derived_trace', arr_close(rec['trace'], e), cls=cls,
+                    detail='%s trace %r expected (one entry per sample, sample order) %r' % (d, rec['trace'], e), vector=vector)
+        events.append(trace_event(len(events), e, fit['w'], rec['value'], rec['sigma_m'], rec['sigma_p'], rec['mean'],
+                                  cls + ':derived:' + d, ev_vec))
+    if proj.get('prev_changed') is not None:
+        ctx.verdict('earlier_solution_untouched', not proj['prev_changed'], cls=cls,
+                    detail='the solution reported by the previous fit changed at %r during this fit' % (proj['prev_changed'],), vector=vector)
+
+
+def rank_replays(nproc, walks):
+    """Replay the walks in a simulated job of nproc processes -> per walk ('ok', [per-rank list of projections]) or
+    ('failed', text).  A batch that breaks (a rank raised / left the others waiting) is redone walk by walk."""
+    from .. import fx_mpi
+
+    def start():
+        try:
+            return fx_mpi.RankGroup(nproc, ses.worker_main)
+        except fx_mpi.GroupFailure as e:
+            raise Machinery('cannot start %d simulated ranks: %s' % (nproc, e))
+    results = [None] * len(walks)
+    g = start()
+    try:
+        try:
+            per_rank = g.run(walks)
+            for k in range(len(walks)):
+                rs = [pr[k] if pr is not None and k < len(pr) else None for pr in per_rank]
+                if all(r is not None for r in rs):
+                    results[k] = ('ok', rs)
+        except fx_mpi.GroupFailure:
+            pass
+        for k in range(len(walks)):
+            if results[k] is not None:
+                continue
+            if g.dead:
+                g = start()
+            try:
+                per_rank = g.run([walks[k]])
+                results[k] = ('ok', [pr[0] if pr else [dict(error='rank returned nothing', fixed={})] for pr in per_rank])
+            except fx_mpi.GroupFailure as e:
+                results[k] = ('failed', str(e))
+    finally:
+        g.close()
+    return results
+
+
+def step_classes(walk):
+    """for every fit of the walk: what changed since the previous fit (first / refit / obs / sel / der, joined by +)."""
+    out, since, first = [], [], True
+    for s in walk['walk']:
+        if s[0] == 'fit':
+            out.append('first' if first else ('+'.join(sorted(set(since))) or 'refit'))
+            since, first = [], False
+        else:
+            since.append(s[0])
+    return out
+
+
+def run_sessions(ctx, rng, events):
+    chosen = session_walks(ctx, rng)
+    twin = SessionTwin()
+    tmpdir = tempfile.mkdtemp(prefix='c09s_')
+    nfit = 0
+    try:
+        for nproc, walks in sorted(chosen.items()):
+            jobs = []
+            for k, w in enumerate(walks):
+                sampler = 'multinest' if (nproc == 1 and k % 3 == 2) else 'nestle'
+                fits = session_payloads(w, rng, sampler)
+                jobs.append(dict(init=w['init'], steps=w['walk'], fits=fits, sampler=sampler))
+            if nproc == 1:
+                results = []
+                for j in jobs:
+                    try:
+                        r = ses.replay(lambda init, j=j: ses.Session(j['sampler'], init, tmpdir, multimodes=True), j)
+                    except Exception as e:   # noqa -- a settings change raised
+                        r = [dict(error='setting change raised %s: %s' % (type(e).__name__, e), fixed={})]
+                    results.append(('ok', [r]))
+            else:
+                slim = [dict(init=j['init'], steps=j['steps'],
+                             fits=[dict(samples=f['samples'], weights=f['weights']) for f in j['fits']]) for j in jobs]
+                results = rank_replays(nproc, slim)
+            for j, (status, per_rank) in zip(jobs, results):
+                classes = step_classes(dict(walk=j['steps']))
+                vector = dict(kind='session', seed=ctx.seed, init=j['init'], steps=j['steps'], sampler=j['sampler'])
+                base = 'session:%s:ranks=%d' % (j['sampler'], nproc)
+                if status != 'ok':
+                    ctx.verdict('summary_produced', False, cls=base, detail='the job of %d processes did not complete: %s' % (nproc, per_rank[-600:]),
+                                vector=vector)
+                    continue
+                for rank, projs in enumerate(per_rank):
+                    for fi, fit in enumerate(j['fits']):
+                        if fi >= len(projs):
+                            break           # the walk ended at a fit that raised (already reported)
+                        cls = '%s:after-%s%s' % (base, classes[fi], '' if j['init'][0] else ':built-without-observation')
+                        judge_fit(ctx, twin, j['sampler'], projs[fi], fit, cls, dict(vector, rank=rank, fit=fi), events)
+                        nfit += 1
+    finally:
+        shutil.rmtree(tmpdir, ignore_errors=True)
+        try:
+            from .. import fx_mpi
+            fx_mpi.close_all()
+        except Exception:   # noqa
+            pass
+    ctx.note('%d reported solutions of %d session walks (process counts %s) judged' %
+             (nfit, sum(len(v) for v in chosen.values()), sorted(chosen)))
+    return nfit
+
+
+# ----------------------------------------------------------------------------------------------
 
 def run(ctx):
     q = ctx.tier == 'quick'
@@ -522,7 +805,19 @@ def run(ctx):
         vecs += res2.tagged('VEC')
     n = run_vectors(ctx, vecs, 120 if q else 1500, rng, 30 if q else 300)
     ctx.note('%d exported columns stacked into %d fits' % (len(vecs), n))
-    run_random(ctx, 60 if q else 600, random.Random(ctx.seed * 9001 + 10))
+    # the life of one optimizer in a job of np processes
+    ctx.check_spec('session-exhaustive', 'PosteriorSession', 'MC_PosteriorSession_%s.cfg' % ctx.tier, workers=2)
+    ctx.expect_refuted('binner-kept-from-the-first-observation', 'PosteriorSession', 'MC_PosteriorSession_refute_lazybinner.cfg',
+                       'BinnedToFittedObservation', workers=1)
+    ctx.expect_refuted('weights-reordered-once-per-derived-parameter', 'PosteriorSession', 'MC_PosteriorSession_refute_weightsonce.cfg',
+                       'DerivedWeightsAligned', workers=1)
+    if not q:
+        ctx.expect_refuted('gathered-lists-left-in-process-order', 'PosteriorSession', 'MC_PosteriorSession_refute_rankorder.cfg',
+                           'DerivedInSampleOrder', workers=1)
+        ctx.check_spec('session-summary-rule', 'PosteriorSession', 'MC_PosteriorSession_rule.cfg', workers=2)
+    events = []
+    run_sessions(ctx, random.Random(ctx.seed * 9001 + 11), events)
+    run_random(ctx, 60 if q else 600, random.Random(ctx.seed * 9001 + 10), events)
 
 
 def replay(ctx, violations):
@@ -547,6 +842,15 @@ def replay(ctx, violations):
                     continue
                 seen.add(key)
                 multimode_case(ctx, World('multinest', 2, tmpdir, multimodes=True), vec['cases'], vec)
+            elif vec.get('kind') == 'session':
+                key = ('session', vec['seed'])
+                if key in seen:
+                    continue
+                seen.add(key)
+                ctx.seed = vec['seed']
+                events = []
+                run_sessions(ctx, random.Random(ctx.seed * 9001 + 11), events)
+                run_random(ctx, 0, random.Random(ctx.seed * 9001 + 10), events)
             elif vec.get('kind') == 'random':
                 key = ('random', vec['seed'])
                 if key in seen:
